@@ -386,6 +386,7 @@ func init() {
 		Run: func(c *core.Ctx, r *core.Report) {
 			E11SVGKeywordInitial(c, r)
 			E11EmptyValueAccepted(c, r)
+			E11ViewBoxSeparators(c, r)
 			E11HexDigitPairs(c, r)
 			E11SVGVocabulary(c, r)
 			E11WordListMatch(c, r)
